@@ -66,10 +66,7 @@ Print Assumptions C04_reserved_keywords_are_the_generated_ones.
    the sequence names and back *)
 Theorem C04_storable_keywords_roundtrip : forall f,
   Gen.Keywords.unstorable_keywords [f] = Ok [] -> seq_to_flag (flag_to_seq f) = f.
-Proof.
-  intros f H. rewrite unstorable_keywords_is_reserved in H. cbn [filter] in H.
-  destruct (reserved_kw f) eqn:E; [discriminate H|]. exact (seq_of_flag_roundtrip f E).
-Qed.
+Proof. exact storable_keywords_roundtrip. Qed.
 Print Assumptions C04_storable_keywords_roundtrip.
 
 Example C04_example :
